@@ -229,7 +229,7 @@ def resolve(recipe, f):
         if not data:
             return ['copy']
         o = data[r[0] % len(data)]
-        return ['rename', o, [(o + 'R')[-16:], 'RENAMED', 'Y' * 17, 'R234567890123456'][r[1] % 4]]
+        return ['rename', o, [('R' + o)[:16], 'RENAMED', 'Y' * 17, 'R234567890123456'][r[1] % 4]]    # names stay valid identifiers (eval)
     if k == 'apply':
         ds = sorted(dims)
         return ['apply', ds[r[0] % len(ds)], ['mean', 'min', 'max', 'sum', 'id', 'first2', 'rev'][r[1] % 7]]
